@@ -5,7 +5,7 @@ from checks import common_sys as cs, common_core as cc
 
 PID = "C18"
 RULE = ("(a) real libc underneath (fn_ptr = None): read/recv/recvfrom/readv/recvmsg on an empty socket, write/send/sendto/writev/sendmsg on a socket whose send buffer was filled, accept on a listener without pending connection; "
-        "caller-set O_NONBLOCK => -1/EAGAIN in < 400 ms (the peer only acts after 700 ms, so waiting is distinguishable from returning); blocking caller => the call completes once the peer acts; F_GETFL identical before/after in every outcome; plain thread and coroutine. "
+        "caller-set O_NONBLOCK => -1/EAGAIN in < 400 ms (the peer only acts after 700 ms, so waiting is distinguishable from returning); blocking caller => the call completes once the peer acts; F_GETFL identical before/after in every outcome; plain thread and coroutine. connect to {listening unix socket, unix path nobody listens on, UDP peer, TCP listener on loopback (the non-blocking connect underneath reports EINPROGRESS and the call waits for writability), TCP port nobody listens on (ECONNREFUSED through SO_ERROR)}: blocking callers get 0 / the refusal, non-blocking callers may be told EINPROGRESS, mode unchanged. "
         "(b) the scripted-kernel grid of C16/C17 with the C18 oracle: on a caller-non-blocking descriptor the first would-block must end the call, and F_GETFL is unchanged for every outcome (success, partial, EOF, error, timeout). "
         "Non-trivial = every case; distinct = (call, context, mode[, script]).")
 
@@ -16,7 +16,7 @@ def run(tier, seed, t0):
         if timed_out:
             return ("violated", f"{PID}/{(case.desc or {}).get('op','?')}/call-never-returned", "no answer: " + tail[-300:])
         return vlib.default_crash_policy(case, rc, timed_out, tail)
-    n = 144 * (4 if thorough else 1)
+    n = 240 * (4 if thorough else 1)
     cases = vlib.fan_out([os.path.join(d, "sys"), "nonblock", "--seed", str(seed)], n, engine="native real-libc", case_timeout=40, crash_policy=pol, jobs=16, shard=max(4, n // 32))
     io, lmax, grid = cs.io_cases(PID, seed, tier, "C18")
     for c in io:
